@@ -20,7 +20,8 @@ let addr_tok (n : node) : string =
   let (k, p) = addr_key (rm_node_addr_view n) in hex_of_bytes k ^ ":" ^ dec_of_n p
 
 let set_tok (l : node list) : string =
-  match List.sort compare (List.map addr_tok l) with [] -> "-" | s -> String.concat ";" s
+  (* a set of addresses: two entries at one address are one destination *)
+  match List.sort_uniq compare (List.map addr_tok l) with [] -> "-" | s -> String.concat ";" s
 
 let cls_tok c now n = match int_of_n (rm_class c now n) with 0 -> "g" | 1 -> "q" | _ -> "b"
 
